@@ -487,8 +487,11 @@ impl InflightRequests {
     }
 
     fn find_by_tid(&self, tid: u32) -> Result<usize, usize> {
+        // Transaction ids wrap around, so order them relative to the oldest request.
+        let base = self.requests.first().map_or(tid, |request| request.tid);
+
         self.requests
-            .binary_search_by(|request| request.tid.cmp(&tid))
+            .binary_search_by(|request| request.tid.wrapping_sub(base).cmp(&tid.wrapping_sub(base)))
     }
 
     /// Removes timeedout requests if necessary to save memory
